@@ -89,6 +89,21 @@ pub fn vp_any<'s, T, F: Fn(&'s T) -> bool>(s: &'s [T], f: F) -> (r: bool)
         !r ==> forall|i: int| 0 <= i < s@.len() ==> call_ensures(f, (&#[trigger] s@[i],), false)
 { s.iter().any(f) }
 
+#[verifier::external_body]
+pub fn vp_find_map<'s, T, U, F: Fn(&'s T) -> Option<U>>(s: &'s [T], f: F) -> (r: Option<U>)
+    requires forall|i: int| 0 <= i < s@.len() ==> call_requires(f, (&#[trigger] s@[i],))
+    ensures match r {
+        Some(u) => exists|i: int| 0 <= i < s@.len() && call_ensures(f, (&#[trigger] s@[i],), Some(u)),
+        None => forall|i: int| 0 <= i < s@.len() ==> call_ensures(f, (&#[trigger] s@[i],), None::<U>) }
+{ s.iter().find_map(f) }
+// `s.iter().enumerate().skip(from).find(|(_, x)| p(x)).map(|(i, _)| i)`: the first index >= from whose element satisfies p
+#[verifier::external_body]
+pub fn vp_position_from<'s, T, F: Fn(&'s T) -> bool>(s: &'s [T], from: usize, f: F) -> (r: Option<usize>)
+    requires forall|i: int| 0 <= i < s@.len() ==> call_requires(f, (&#[trigger] s@[i],))
+    ensures match r {
+        Some(i) => from <= i < s@.len() && call_ensures(f, (&s@[i as int],), true),
+        None => forall|i: int| from <= i < s@.len() ==> call_ensures(f, (&#[trigger] s@[i],), false) }
+{ s.iter().enumerate().skip(from).find(|(_, x)| f(x)).map(|(i, _)| i) }
 //%fn crates/net/src/dnssec/nsec3.rs :: find_covering_record
 //%sub1 "nsec3s.iter().find(" => "vp_find(nsec3s, " # R-shim: slice iterator `find` -> shim specified through the closure's contract
 //%sub? "target_hashed_name < record.nsec3_data.next_hashed_owner_name()" => "vp_bytes_lt(target_hashed_name, record.nsec3_data.next_hashed_owner_name())" # R-shim: PartialOrd on [u8] (order of the raw hashes)
@@ -125,6 +140,8 @@ impl Name {
     #[verifier::external_body] pub fn base_name(&self) -> (r: Name) ensures r == parent_of(*self) { unimplemented!() }
     #[verifier::external_body] pub fn num_labels(&self) -> (r: u8) ensures r == nlabels(*self) { unimplemented!() }
     #[verifier::external_body] pub fn clone(&self) -> (r: Name) ensures r == *self { unimplemented!() }
+    // Name::prepend_label("*") (proved in unit name_build): the wildcard at the name, or an error if it would be too long
+    #[verifier::external_body] pub fn prepend_label(&self, l: &str) -> (r: Result<Name, ProtoError>) ensures r matches Ok(w) ==> w == wildcard_at(*self) { unimplemented!() }
 }
 // the iterator pipeline `name.into_iter().rev().take(n + 1).rev().collect()` + Name::from_labels(..).expect(..):
 // the ancestor made of the last n + 1 labels (ASSUMED; from_labels on labels of a valid name does not fail)
@@ -151,6 +168,8 @@ pub fn nsec3_yield<M: VpDisplay>(p: Proof, query: &Query, msg: M) -> (r: Proof) 
 //%end
 //%struct crates/net/src/dnssec/nsec3.rs :: Context
 //%end
+// #[derive(Default)] on ClosestEncloserProofInfo: both fields None
+impl<'a> ClosestEncloserProofInfo<'a> { fn default() -> (r: Self) ensures r.closest_encloser is None && r.next_closer is None { ClosestEncloserProofInfo { closest_encloser: None, next_closer: None } } }
 // the point a name hashes to under the context's parameters (hash algorithm, salt, iterations)
 pub uninterp spec fn hp(alg: Nsec3HashAlgorithm, salt: Seq<u8>, iterations: u16, n: Name) -> u64;
 impl<'a> Context<'a> {
@@ -167,15 +186,62 @@ impl<'a> Context<'a> {
         ensures r.1.h == self.pt(*name), raw_point(r.0@) == self.pt(*name)
     { unimplemented!() }
 
-    // ASSUMED (not verified: find_map / enumerate / skip / swap_remove pipelines): what closest_encloser_proof and
-    // closest_encloser_proof_with_wildcard return, read off their bodies:
-    //  - closest encloser: a candidate (proper ancestor of the query name, up to the SOA name) with a MATCHING record;
-    //  - next closer: the candidate one label longer, with a COVERING record (found by find_covering_record);
-    //  - wildcard: `*.closest_encloser` with a MATCHING (matching = true) or COVERING (false) record;
-    //  - without a closest encloser there is neither a next closer nor a wildcard.
+    // `self.encloser_candidates().map(|name| HashedNameInfo::new(name, self)).collect::<Vec<_>>()`: the query name and its
+    // ancestors up to the SOA name, longest first, each hashed (EncloserCandidates::next walks base_name(); empty when the
+    // query name is not inside the zone).  ASSUMED: the enumeration itself (iterator impl + map + collect).
     #[verifier::external_body]
-    fn closest_encloser_proof_with_wildcard(&'a self, matching: bool)
-        -> (r: (ClosestEncloserProofInfo<'a>, Option<(HashedNameInfo, &'a Nsec3RecordPair<'a>)>))
+    fn vp_candidates(&'a self) -> (r: Vec<HashedNameInfo>)
+        ensures
+            r@.len() > 0 ==> r@[0].name == self.query.name,
+            forall|i: int| 0 <= i < r@.len() ==> self.is_candidate((#[trigger] r@[i]).name) && r@[i].base32_hashed_name.h == self.pt(r@[i].name)
+                && raw_point(r@[i].hashed_name@) == self.pt(r@[i].name),
+            forall|i: int| 0 <= i < r@.len() - 1 ==> (#[trigger] r@[i + 1]).name == parent_of(r@[i].name),
+            // a name occurs once in its own ancestor chain
+            forall|i: int, j: int| 0 <= i < j < r@.len() ==> (#[trigger] r@[i]).name != (#[trigger] r@[j]).name,
+    { unimplemented!() }
+
+//%fn crates/net/src/dnssec/nsec3.rs :: impl<'a> Context<'a> :: closest_encloser_proof
+//%sub1 "self .encloser_candidates() .map(|name| HashedNameInfo::new(name, self)) .collect::<Vec<_>>()" => "self.vp_candidates()" # R-shim: iterator map + collect over the ancestor enumeration (assumed, see vp_candidates)
+//%sub1 "closest_encloser_candidates.iter().find_map(" => "vp_find_map(closest_encloser_candidates.as_slice(), " # R-shim: slice iterator `find_map`, specified through the closure's contract
+//%sub1 "self.nsec3s .iter() .find(" => "vp_find(self.nsec3s, " # R-shim: slice iterator `find`
+//%sub1 "closest_encloser_candidates .iter() .enumerate() .skip(1) .find(|(_, candidate)| { candidate.base32_hashed_name == closest_encloser_matching_record.base32_hashed_name }) .map(|(i, _)| i)" => "vp_position_from(closest_encloser_candidates.as_slice(), 1, |candidate: &HashedNameInfo| -> (b: bool) ensures b == (candidate.base32_hashed_name.h == closest_encloser_matching_record.base32_hashed_name.h) { candidate.base32_hashed_name == closest_encloser_matching_record.base32_hashed_name })" # R-shim + R-clo: enumerate().skip(1).find(p).map(index) -> first index >= 1 satisfying p (the predicate is the source's)
+//%sub1 "next_closer_covering_record.map(|record| (next_closer_name_info, record))" => "match next_closer_covering_record { Some(record) => Some((next_closer_name_info, record)), None => None }" # R-shim: Option::map with an FnOnce closure that moves a captured value
+//%mutant next_closer_is_not_one_label_longer "closest_encloser_candidates.swap_remove(closest_encloser_index - 1)" => "closest_encloser_candidates.swap_remove(0)"
+//%before "let closest_encloser_name_info"
+        let ghost vp_c0 = closest_encloser_candidates@;
+        let ghost vp_i = closest_encloser_index as int;
+//%before "let next_closer_covering_record"
+        proof {
+            assert(closest_encloser_name_info == vp_c0[vp_i]);
+            assert(next_closer_name_info == vp_c0[vp_i - 1]);
+            assert(vp_c0[(vp_i - 1) + 1].name == parent_of(vp_c0[vp_i - 1].name));
+        }
+//%closure "|candidate|"
+|candidate: &HashedNameInfo| -> (o: Option<&'a Nsec3RecordPair<'a>>)
+    ensures match o { Some(rec) => matches(*rec, candidate.base32_hashed_name.h) && (exists|i: int| 0 <= i < self.nsec3s@.len() && *rec == self.nsec3s@[i]),
+                      None => !self.some_matches(candidate.base32_hashed_name.h) }
+//%closure "|nsec|"
+|nsec: &&'a Nsec3RecordPair<'a>| -> (b: bool) ensures b == matches(**nsec, candidate.base32_hashed_name.h)
+//%contract
+        // RFC 5155 7.2.1: closest encloser = a PROPER ancestor of the query name (inside the zone) with a matching record;
+        // next closer = the name one label longer, with a covering record; no next closer without a closest encloser
+        ensures
+            r.closest_encloser is None ==> r.next_closer is None,
+            r.closest_encloser matches Some((ce, rec)) ==> self.is_candidate(ce.name) && ce.name != self.query.name
+                && matches(*rec, self.pt(ce.name)) && (exists|i: int| 0 <= i < self.nsec3s@.len() && *rec == self.nsec3s@[i]),
+            r.next_closer matches Some((nc, rec)) ==> r.closest_encloser is Some && self.is_candidate(nc.name)
+                && parent_of(nc.name) == r.closest_encloser.unwrap().0.name
+                && covers(*rec, self.pt(nc.name)) && (exists|i: int| 0 <= i < self.nsec3s@.len() && *rec == self.nsec3s@[i]),
+//%end
+
+//%fn crates/net/src/dnssec/nsec3.rs :: impl<'a> Context<'a> :: closest_encloser_proof_with_wildcard
+//%sub1 "self.nsec3s .iter() .find(" => "vp_find(self.nsec3s, " # R-shim: slice iterator `find`, specified through the closure's contract
+//%sub1 "wildcard_record.map(|record| (wildcard_name_info, record))" => "match wildcard_record { Some(record) => Some((wildcard_name_info, record)), None => None }" # R-shim: Option::map with an FnOnce closure that moves a captured value -> the match it denotes
+//%closure "|record|"@1
+|record: &&'a Nsec3RecordPair<'a>| -> (b: bool) ensures b == matches(**record, wildcard_name_info.base32_hashed_name.h)
+//%contract
+        // the wildcard of the closest-encloser proof: `*.closest_encloser`, with a MATCHING (matching = true) or COVERING
+        // (false) record; none without a closest encloser; the closest-encloser part is what closest_encloser_proof returned
         ensures
             r.0.closest_encloser is None ==> r.0.next_closer is None && r.1 is None,
             r.0.closest_encloser matches Some((ce, rec)) ==> self.is_candidate(ce.name) && ce.name != self.query.name
@@ -186,7 +252,7 @@ impl<'a> Context<'a> {
             r.1 matches Some((wc, rec)) ==> r.0.closest_encloser is Some && wc.name == wildcard_at(r.0.closest_encloser.unwrap().0.name)
                 && (if matching { matches(*rec, self.pt(wc.name)) } else { covers(*rec, self.pt(wc.name)) })
                 && (exists|i: int| 0 <= i < self.nsec3s@.len() && *rec == self.nsec3s@[i]),
-    { unimplemented!() }
+//%end
 
 //%fn crates/net/src/dnssec/nsec3.rs :: impl<'a> Context<'a> :: proof
 //%sub1 "msg: impl Display" => "msg: impl VpDisplay" # R-fmt: Display is only used for the log line
